@@ -315,6 +315,9 @@ func TestReplay(t *testing.T) {
 	if !ok {
 		t.Fatalf("no scenario check registered for %s", p)
 	}
+	if sc, err := world.Load(f); err == nil && p == "C20" && len(sc.Case) > 0 {
+		c = Check{Prop: "C20", Exec: execC20Burst} // a case of TestC20Burst, not a request history
+	}
 	Replay(t, c, f)
 }
 
